@@ -60,6 +60,19 @@ def fold(expr, consts, depth=0):
     return None
 
 
+def checked_constructor(lib, ty, try_from_body):
+    """The body that performs the range test for `ty`: TryFrom<wide>::try_from itself when it calls RangeInclusive::contains,
+    otherwise the one function of the lib crate that does, constructs `ty`, and is called from try_from.  None if not found."""
+    def has_contains(b):
+        return any(re.search(r'RangeInclusive::<[^>]*>::contains', c['callee']) for c in b['calls'])
+    if has_contains(try_from_body):
+        return try_from_body
+    called = {c['callee'] for c in try_from_body['calls']}
+    cands = [b for b in lib['bodies'] if b['kind'] in ('assoc_fn', 'fn') and has_contains(b) and any(a['adt'] == f'integer::{ty}' for a in b['aggregates'])
+             and any(cal == b['id'] or cal.split('::')[-1] == b['id'].split('::')[-1] and ty in cal for cal in called)]
+    return cands[0] if len(cands) == 1 else None
+
+
 def range_bounds(b, byid):
     """(lo, hi) of the RangeInclusive the body tests its argument against, from rustc-evaluated constants; None if not found."""
     cont = [c for c in b['calls'] if re.search(r'RangeInclusive::<[^>]*>::contains', c['callee'])]
@@ -193,7 +206,27 @@ def run(ctx, rep):
         if len(tb) != 1:
             rep.fail('J2', key, f'TryFrom<{wide}> for {tname} not found in the compiled lib crate', site)
             continue
-        got = range_bounds(tb[0], byid)
+        cc = checked_constructor(libc, tname, tb[0])
+        if cc is not None and cc is not tb[0]:
+            # TryFrom delegates to a private range-checked constructor: it must hand over its own argument and build nothing itself
+            deleg = [c for c in tb[0]['calls'] if c['callee'] == cc['id'] or c['callee'].endswith('::' + cc['id'].split('::')[-1]) and cc['id'].split('::')[-1] in c['callee']]
+            own = [a for a in tb[0]['aggregates'] if a['adt'] == f'integer::{tname}']
+            def from_arg1(opnd, depth=0):
+                # the operand is the function's own first argument, possibly through plain copies (`_3 = copy _1; f(move _3)`)
+                m_ = re.fullmatch(r'(?:move|copy) (_\d+)', opnd.strip())
+                if not m_ or depth > 6:
+                    return False
+                if m_.group(1) == '_1':
+                    return True
+                for blk_ in tb[0]['blocks']:
+                    for st_ in blk_['stmts']:
+                        d_ = re.fullmatch(rf'{m_.group(1)} = ((?:move|copy) _\d+)', st_.strip())
+                        if d_:
+                            return from_arg1(d_.group(1), depth + 1)
+                return False
+            okd = len(deleg) == 1 and any(from_arg1(a_) for a_ in deleg[0]['args']) and not own
+            rep.check(okd, 'J2', f'{tname}:try_from-delegates', f"TryFrom<{wide}> hands its argument to {cc['id'].split('::')[-1]} and builds nothing itself", f"TryFrom<{wide}> for {tname} neither tests the range itself nor hands its argument (only) to the range-checked constructor {cc['id']}", {'file': tb[0]['file'], 'line': tb[0]['line']})
+        got = range_bounds(cc if cc is not None else tb[0], byid)
         rep.check(got == (mn, mx), 'J2', key, f'value tested against the inclusive range [{mn}, {mx}] (bounds evaluated by rustc)', f"TryFrom<{wide}> for {tname}: the range test covers {got if got else 'no recognisable inclusive range'} instead of [{mn}, {mx}] (exclusive range / different bounds / no RangeInclusive::contains test)", {'file': tb[0]['file'], 'line': tb[0]['line']})
     rep.check('#[serde(try_from=$untruncated_str)]' in body and 'Deserialize' in body, 'J2', 'macro:serde-try_from', 'Deserialize derived with serde(try_from)', 'truncated_type!: Deserialize is no longer routed through serde(try_from = ..)', {'file': mdef[0]['file'], 'line': mdef[0]['line']})
     for bad in ('transparent', 'serde(from', 'remote', 'DerefMut', 'AsMut', '&mutself'):
@@ -228,6 +261,12 @@ def run(ctx, rep):
                 rep.check(ok, 'J3', key, f'constant payload {vals[0] if vals else None} within [{mn}, {mx}] (evaluated by rustc)', f"{b['id']}: a constant of type {ty} is built from `{am.group(1) if am else blkst[:60]}` = {vals[0] if vals else 'an unevaluated operand'}, outside [{mn}, {mx}] — an out-of-range {ty} exists without passing the range test", asite)
                 continue
             m = re.fullmatch(rf'<integer::{ty} as std::convert::TryFrom<{wide}>>::try_from', b['id'])
+            if not m:
+                # the private range-checked constructor TryFrom delegates to (found by what it does: it tests its argument with
+                # RangeInclusive::contains and is what TryFrom<wide> calls)
+                tbs = [x for x in lib['bodies'] if x['kind'] == 'assoc_fn' and re.search(rf'<integer::{ty} as std::convert::TryFrom<{wide}>>::try_from$', x['id'])]
+                cc_ = checked_constructor(lib, ty, tbs[0]) if len(tbs) == 1 else None
+                m = cc_ is b
             if m:
                 cont = [c for c in b['calls'] if c['callee'].endswith('RangeInclusive::<Idx>::contains')]
                 ok = False
